@@ -39,14 +39,16 @@ TRUSTED = [
 ]
 RULE = ('(a) streams of 0..6 packets (types/lengths at the 1/3/5/9-byte TL-number boundaries) plus a proper prefix of '
         'one more, fed to a real StreamReader in chunks (every single cut and sampled/all 2-cuts of streams <= 40 B, random '
-        'k-cuts of longer ones, byte-by-byte) then EOF; garbage streams. (b) per front-end (v2, legacy v1): states with 0..3 '
+        'k-cuts of longer ones, byte-by-byte) then EOF or a connection reset; Type numbers at the sign/width boundaries of the 5- and 9-byte forms '
+        '(2^31-1, 2^31, 2^32-1, 2^32, 2^63-1, 2^63, 2^64-1); packets of >= 65536 bytes; garbage streams. (b) per front-end (v2, legacy v1): states with 0..3 '
         'pending Interests (incl. CanBePrefix and implicit-digest ones) and 0..2 handlers; 1..6 packets per case drawn from: '
         'every kind of valid packet (Interest, parameterised+signed Interest, Data, Nack envelope, envelopes with PIT token / '
         'unknown headers / CachePolicy / fragmentation fields / no Fragment / empty Fragment / Nack without reason), all '
         'truncations, single-byte substitutions (boundary values), byte insertions/deletions, length-field edits, element '
         'drop/duplicate/swap, random bytes and random TLV trees; delivered with the consistent type and with a wrong type, '
-        'as a task (faces) and awaited (DummyFace); afterwards every still-pending Interest is answered with its Data. '
-        '(c) UDP datagram_received with empty / truncated / valid datagrams. non-trivial = a malformed packet met a state '
+        'as a task (faces) and awaited (DummyFace); two packets handed over in one piece; afterwards every still-pending Interest is answered with its Data and every '
+        'attached handler is sent a fresh well-formed Interest. '
+        '(c) UDP datagram_received with empty / truncated / valid datagrams, datagrams carrying two packets or trailing bytes, 64 KiB. non-trivial = a malformed packet met a state '
         'with a pending Interest or handler, or a stream was cut inside a TL number; distinct = distinct cases')
 
 LP = 0x64
@@ -195,6 +197,10 @@ def mutations(w, rng, n):
             out.append(('delete', w[:i] + w[i + 1:]))
         elif r < 0.74:
             out.append(('trail', w + bytes(rng.randrange(256) for _ in range(rng.randint(1, 4)))))
+        elif r < 0.78:
+            # two packets handed over in one piece (what a datagram transport does with a datagram carrying two)
+            P = base_packets()
+            out.append(('concat', w + P[rng.choice(sorted(P))]))
         else:
             out.append(('struct', structural(w, rng)))
     return out
@@ -285,8 +291,19 @@ def stream_packets(rng):
     pool = [P['int'], P['data/a'], P['nack'], P['lp-nofrag'], tlv(5, b''), tlv(0xfd, b'x'), tlv(0xffff, b''), tlv(0x10000, b'yz'),
             tlv(6, b'q' * 0xfc), tlv(6, b'q' * 0xfd), tlv(7, b'r' * 300), tlv(2 ** 32 + 5, b'\x00'), P['data-long'],
             b'\xfd\x00\x05\x00', b'\x05\xfd\x00\x01\x07', b'\x05\xfe\x00\x00\x00\x01\x07', b'\x05\xff' + b'\x00' * 7 + b'\x01\x07',
-            tlv(0xfc, b''), tlv(0, b'\x00')]
+            tlv(0xfc, b''), tlv(0, b'\x00'),
+            # Type numbers at the sign / width boundaries of the 5- and 9-byte forms, the marker bytes as values
+            tlv(0x7fffffff, b'a'), tlv(0x80000000, b'b'), tlv(0xffffffff, b''), tlv(2 ** 32, b'c'),
+            tlv(2 ** 63 - 1, b''), tlv(2 ** 63, b'd'), tlv(2 ** 64 - 1, b'e'), tlv(0xfe, b''), tlv(0xff, b'f'),
+            b'\x05\xff' + b'\x00' * 6 + b'\x00\x02zz']
     return pool
+
+
+def big_packets():
+    """packets whose Length really needs the 5-byte form (>= 65536 bytes of value)"""
+    if 'big' not in _cache:
+        _cache['big'] = [tlv(6, b'L' * 65536), tlv(0x10000, bytes(range(256)) * 258)]
+    return _cache['big']
 
 
 def cases(rng, tier):
@@ -326,13 +343,31 @@ def cases(rng, tier):
             for _ in range(6 if quick else 40):
                 cutsets.append(sorted(set(rng.randrange(1, L) for _ in range(rng.randint(2, 7)))))
         for cs in cutsets:
-            yield {'k': 'stream', 'pkts': [p.hex() for p in pk], 'partial': partial.hex(), 'cuts': cs}
+            c = {'k': 'stream', 'pkts': [p.hex() for p in pk], 'partial': partial.hex(), 'cuts': cs}
+            if rng.random() < 0.2:
+                c['end'] = 'reset'          # the stream ends with a connection reset instead of an orderly EOF
+            yield c
+    # packets of >= 65536 bytes (Length in its 5-byte form for real), alone / between small packets / cut short
+    big = big_packets()
+    for bi in range(2 if quick else 12):
+        b = big[bi % 2]
+        pk = [b] if bi == 0 else [rng.choice(short) for _ in range(rng.randint(0, 2))] + [b] + [rng.choice(short) for _ in range(rng.randint(0, 2))]
+        partial = b'' if bi % 3 == 0 else big[(bi + 1) % 2][:rng.choice([1, 3, 5, 6, 4096, 65535, 65541])]
+        L = sum(map(len, pk)) + len(partial)
+        off = sum(len(p) for p in pk[:pk.index(b)])
+        for cs in [[], [off + 1], [off + 3], [off + 6], [off + 6 + 65535], sorted(set(rng.randrange(1, L) for _ in range(5)))]:
+            c = {'k': 'stream', 'pkts': [p.hex() for p in pk], 'partial': partial.hex(), 'cuts': [x for x in cs if x < L]}
+            if rng.random() < 0.2:
+                c['end'] = 'reset'
+            yield c
     for _ in range(10 if quick else 200):     # garbage streams: only the generic part of the oracle applies
         s = bytes(rng.choice([0, 1, 2, 5, 6, 0xfc, 0xfd, 0xfe, 0xff, rng.randrange(256)]) for _ in range(rng.randint(0, 24)))
         yield {'k': 'stream', 'raw': s.hex(), 'cuts': sorted(set(rng.randrange(1, len(s)) for _ in range(rng.randint(0, 3)))) if len(s) > 1 else []}
     # --- (c) UDP -----------------------------------------------------------------------------
     P = base_packets()
-    for d in [b'', b'\xfd', b'\xfd\x00', b'\xfe\x00\x00', b'\xff' + b'\x00' * 7, b'\x05', b'\x05\x00', P['int'], P['nack'], b'\xfd\x03\x20\x00']:
+    for d in [b'', b'\xfd', b'\xfd\x00', b'\xfe\x00\x00', b'\xff' + b'\x00' * 7, b'\x05', b'\x05\x00', P['int'], P['nack'], b'\xfd\x03\x20\x00',
+              P['int'] + P['data/a'], P['data/a'] + b'\x00', P['nack'] + P['nack'], tlv(0x80000000, b'x'), tlv(2 ** 63, b''),
+              tlv(2 ** 64 - 1, b'y'), b'\xfe\xff\xff\xff', b'\xff' + b'\xff' * 8, tlv(6, b'u' * 65536)]:
         yield {'k': 'udp', 'data': d.hex()}
     for _ in range(10 if quick else 300):
         yield {'k': 'udp', 'data': bytes(rng.choice([0xfd, 0xfe, 0xff, 5, 6, 100, rng.randrange(256)]) for _ in range(rng.randint(0, 10))).hex()}
@@ -408,6 +443,8 @@ def _shrink(case):
             yield {**case, 'pkts': case['pkts'][:i] + case['pkts'][i + 1:], 'cuts': [c for c in case['cuts'] if c < total]}
         if case['partial']:
             yield {**case, 'partial': ''}
+        if case.get('end'):
+            yield {k2: v for k2, v in case.items() if k2 != 'end'}
         for i in range(len(case['cuts'])):
             yield {**case, 'cuts': case['cuts'][:i] + case['cuts'][i + 1:]}
     elif k == 'udp':
@@ -489,7 +526,10 @@ def run_stream(case):
                     loop.settle(limit=2000)
                     prev = c
             before_eof = len(got)
-            face.reader.feed_eof()
+            if case.get('end') == 'reset':
+                face.reader.set_exception(ConnectionResetError())
+            else:
+                face.reader.feed_eof()
             loop.settle(limit=2000)
         except RuntimeError:
             hung = True
@@ -707,8 +747,16 @@ def run_recv(case):
             e = rig.deliver_await(w, 6)
             loop.settle()
             finale[str(i)] = [outcomes.get(i), None if e is None else cls_name(type(e).__name__)]
+        # ... and every attached handler is sent a fresh, well-formed Interest of its own
+        hfin = []
+        for j, h in enumerate(case['hand']):
+            n0 = len(invoked)
+            w = bytes(enc.make_interest(h + '/fin/%d' % j, enc.InterestParam(nonce=0x0f0e0d00 + j, lifetime=4000)))
+            e = rig.deliver_await(w, 5)
+            loop.settle()
+            hfin.append([_comps(enc.Name.from_str(h)), invoked[n0:], None if e is None else cls_name(type(e).__name__)])
         final = {str(i): outcomes.get(i) for i in range(len(case['pend']))}
-        return {'pend': pend_desc, 'pit0': pit0, 'fib0': fib0, 'trace': trace, 'finale': finale, 'final': final,
+        return {'pend': pend_desc, 'hfin': hfin, 'pit0': pit0, 'fib0': fib0, 'trace': trace, 'finale': finale, 'final': final,
                 'errors_total': len(loop.errors)}
 
 
@@ -911,6 +959,14 @@ def oracle(case, impl):
         if f[0] is None or f[0][0] != 'data' or f[1] is not None:
             return (f"{case['fe']}: pending Interest {i}, not addressed by any delivered packet, did not complete normally "
                     f"afterwards ({f})")
+    hands = [h for h, _, _ in impl.get('hfin', [])]
+    for h, inv, exc in impl.get('hfin', []):
+        # the fresh Interest /h/fin/j belongs to the longest attached prefix of its name, which is h unless a longer
+        # attached prefix also covers it (none does: the names are /<h>/fin/<j>)
+        if exc is not None or [x[0] for x in inv] != [h]:
+            return (f"{case['fe']}: attached handler, not addressed by a bad packet, did not receive a well-formed Interest "
+                    f"afterwards (invoked {[x[0] for x in inv]}, error {exc})")
+    _ = hands
     if impl['errors_total']:
         return f"{case['fe']}: {impl['errors_total']} unhandled errors reached the event loop"
     return None
@@ -929,6 +985,9 @@ def tags(case, impl):
     if case['k'] == 'stream':
         t.append('cuts:%d' % min(len(case['cuts']), 8))
         t.append('stream-packets:%d' % len(impl['got']))
+        t.append('stream-end:' + case.get('end', 'eof'))
+        if len(_stream_bytes(case)) >= 65536:
+            t.append('stream-with-64k-packet')
     elif case['k'] == 'recv':
         t.append(f"{case['fe']}:pend{len(case['pend'])}:hand{len(case['hand'])}")
         for pk, rec in zip(case['pkts'], impl['trace']):
